@@ -134,6 +134,7 @@ def main(argv=None):
     lines = []
     viol_n = 0
     known_hit = []
+    written = set()
     os.makedirs(os.path.join(VERIF, "replays", pid), exist_ok=True)
     for r in results:
         if r.get("harness_error"):
@@ -147,6 +148,9 @@ def main(argv=None):
             if k:
                 known_hit.append((k, v))
                 continue
+            if path in written:
+                continue
+            written.add(path)
             json.dump({"property": pid, "case": v["case"], "obligation": v["obligation"], "env": v["env"], "note": v.get("note"),
                        "replay": v.get("replay")}, open(path, "w"), indent=1)
             lines.append(f"VIOLATION property={pid} replay={path}")
